@@ -113,6 +113,8 @@ def _nd_attr(eng, st, obj, attr, node):
 		return iter([(st, (SInt(c.length),))])
 	if attr == 'ndim':
 		return iter([(st, 1)])
+	if attr == 'any' or attr == 'copy' or attr == 'astype' or attr == 'view' or attr == 'sort':
+		return None
 	if attr == 'size':
 		return iter([(st, SInt(c.length))])
 	return None
@@ -177,18 +179,30 @@ def _zeros(eng, st, args, kwargs, node):
 		yield s2, r
 
 
+FLATNZ_ARR = z3.Function('flatnz_arr', IntArr, I, I, IntArr)    # positions of the non-zero entries of a[off..off+n), increasing
+FLATNZ_LEN = z3.Function('flatnz_len', IntArr, I, I, I)
+
+
+def flatnz(a):
+	"""(SArr of positions, characterisation) for the array a"""
+	r = SArr(FLATNZ_ARR(a.arr, a.off, a.length), FLATNZ_LEN(a.arr, a.off, a.length), 0, DType('i', 8).ctype, 'ndarray')
+	m, n = r.length, a.length
+	p, q, j, i = z3.Int(fresh_name('p')), z3.Int(fresh_name('q')), z3.Int(fresh_name('j')), z3.Int(fresh_name('i'))
+	char = z3.And(m >= 0,
+		z3.ForAll([p, q], z3.Implies(z3.And(0 <= p, p < q, q < m), r.at(p) < r.at(q))),
+		z3.ForAll([j], z3.Implies(z3.And(0 <= j, j < m), z3.And(r.at(j) >= 0, r.at(j) < n, a.at(r.at(j)) != 0))),
+		z3.ForAll([i], z3.Implies(z3.And(0 <= i, i < n, a.at(i) != 0), z3.Exists([j], z3.And(0 <= j, j < m, r.at(j) == i)))))
+	return r, char
+
+
 @lib('numpy.flatnonzero')
 def _flatnonzero(eng, st, args, kwargs, node):
-	"""indices of the non-zero entries, in increasing order (intp)"""
+	"""indices of the non-zero entries, in increasing order (intp): THE array flatnz(a)"""
 	a = st.deref(args[0])
 	if not isinstance(a, SArr):
 		raise Unsupported(f'flatnonzero of {a!r}')
-	r = mk_ndarray(st, 'nz', DType('i', 8), ref=False)
-	m, n = r.length, a.length
-	p, q, j, i = z3.Int(fresh_name('p')), z3.Int(fresh_name('q')), z3.Int(fresh_name('j')), z3.Int(fresh_name('i'))
-	st.assume(z3.ForAll([p, q], z3.Implies(z3.And(0 <= p, p < q, q < m), r.at(p) < r.at(q))))
-	st.assume(z3.ForAll([j], z3.Implies(z3.And(0 <= j, j < m), z3.And(r.at(j) >= 0, r.at(j) < n, a.at(r.at(j)) != 0))))
-	st.assume(z3.ForAll([i], z3.Implies(z3.And(0 <= i, i < n, a.at(i) != 0), z3.Exists([j], z3.And(0 <= j, j < m, r.at(j) == i)))))
+	r, char = flatnz(a)
+	st.assume(char)
 	ref = Ref('ndarray')
 	st.heap[ref.addr] = r
 	yield st, ref
@@ -342,3 +356,157 @@ def _argsort(eng, st, args, kwargs, node):
 	ref = Ref('ndarray')
 	st.heap[ref.addr] = r
 	yield st, ref
+
+
+# ---- index arrays (C20) ----------------------------------------------------------------------------------------------------
+
+@lib('numpy.empty')
+def _empty(eng, st, args, kwargs, node):
+	"""uninitialised array (contents arbitrary)"""
+	n = args[0]
+	dt = as_dtype(_kw(args, kwargs, 1, 'dtype', DType('f', 8)))
+	if isinstance(n, tuple):
+		raise Unsupported('numpy.empty with a shape tuple')
+	nt = int_term(n)
+	if dt.kind == 'f':
+		raise Unsupported('float numpy.empty')
+	for s2, ok in eng.branch(st, nt >= 0):
+		if not ok:
+			yield s2, Raised('ValueError')
+			continue
+		yield s2, mk_ndarray(s2, 'empty', dt, length=nt)
+
+
+@lib('numpy.asarray')
+def _asarray(eng, st, args, kwargs, node):
+	"""asarray of an ndarray is that array; of a list of Python ints an int64 array with the same values"""
+	v = args[0]
+	c = st.deref(v)
+	if isinstance(c, SArr) and c.kind == 'ndarray':
+		yield st, v
+		return
+	if isinstance(c, SSeq) and c.T is TInt:
+		r = mk_ndarray(st, 'asarray', DType('i', 8), length=c.length, ref=False, constrain=False)
+		j = z3.Int(fresh_name('j'))
+		big = z3.Exists([j], z3.And(0 <= j, j < c.length, z3.Or(z3.Select(c.arr, j) < -(1 << 63), z3.Select(c.arr, j) >= (1 << 63))))
+		for s2, ovf in eng.branch(st, big):
+			if ovf:
+				yield s2, Raised('OverflowError')    # (becomes uint64/object/float in NumPy; outside the modelled range)
+				continue
+			s2.assume(z3.ForAll([j], z3.Implies(z3.And(0 <= j, j < c.length), r.at(j) == z3.Select(c.arr, j))))
+			ref = Ref('ndarray')
+			s2.heap[ref.addr] = r
+			yield s2, ref
+		return
+	raise Unsupported(f'asarray({c!r})')
+
+
+@lib('__compare__')
+def _nd_compare(eng, st, op, a, b, node):
+	"""array < scalar: element-wise boolean array"""
+	av = st.deref(a) if isinstance(a, Ref) else a
+	if isinstance(av, SArr) and av.kind == 'ndarray' and is_intlike(b) and op in (ast.Lt, ast.LtE, ast.Gt, ast.GtE):
+		r = mk_ndarray(st, 'cmp', DType('b', 1), length=av.length, ref=False)
+		j = z3.Int(fresh_name('j'))
+		bt = int_term(b)
+		x = av.at(j)
+		c = {ast.Lt: x < bt, ast.LtE: x <= bt, ast.Gt: x > bt, ast.GtE: x >= bt}[op]
+		st.assume(z3.ForAll([j], z3.Implies(z3.And(0 <= j, j < av.length), r.at(j) == z3.If(c, 1, 0))))
+		ref = Ref('ndarray')
+		st.heap[ref.addr] = r
+		return ref
+	return None
+
+
+@lib('method:any')
+def _any(eng, st, obj, args, kwargs, node, site):
+	a = st.deref(obj)
+	if isinstance(a, SArr):
+		j = z3.Int(fresh_name('j'))
+		yield st, SBool(z3.Exists([j], z3.And(0 <= j, j < a.length, a.at(j) != 0)))
+		return
+	raise Unsupported(f'any() on {a!r}')
+
+
+@lib('method:copy')
+def _copy(eng, st, obj, args, kwargs, node, site):
+	a = st.deref(obj)
+	if isinstance(a, SArr) and isinstance(obj, Ref):
+		r = Ref(obj.kind)
+		st.heap[r.addr] = a       # contents are immutable values: a new cell with the same contents is a copy
+		yield st, r
+		return
+	raise Unsupported(f'copy() on {a!r}')
+
+
+_astype0 = LIB['method:astype']
+
+
+@lib('numpy.add')
+def _np_add(eng, st, args, kwargs, node):
+	"""np.add(a, s, out=a, where=mask): a[j] += s where mask[j], computed in the OUTPUT dtype's fixed width (C wrap-around)"""
+	a, s = args[0], args[1]
+	out, where = kwargs.get('out'), kwargs.get('where')
+	if not (isinstance(a, Ref) and out is a and where is not None):
+		raise Unsupported('numpy.add other than the in-place masked form')
+	av, mv = st.heap[a.addr], st.deref(where)
+	ct = av.elem
+	bits = ct.bits
+	sv = int_term(s)
+	r = SArr(z3.Const(fresh_name('added'), IntArr), av.length, 0, av.elem, 'ndarray')
+	j = z3.Int(fresh_name('j'))
+
+	def wrap(x):
+		m = x % (1 << bits)
+		return z3.If(m >= (1 << (bits - 1)), m - (1 << bits), m) if ct.signed else m
+	st.assume(z3.ForAll([j], z3.Implies(z3.And(0 <= j, j < av.length),
+		r.at(j) == z3.If(mv.at(j) != 0, wrap(av.at(j) + sv), av.at(j)))))
+	st.heap[a.addr] = r
+	yield st, a
+
+
+_np_add.writes = ('out',)
+
+
+@lib('numpy.arange')
+def _arange(eng, st, args, kwargs, node):
+	if len(args) != 3:
+		raise Unsupported('arange with other than (start, stop, step)')
+	start, stop, step = [int_term(x) for x in args]
+	cnt = z3.If(step > 0, z3.If(stop > start, (stop - start + step - 1) / step, 0), z3.If(start > stop, (start - stop + (-step) - 1) / (-step), 0))
+	r = mk_ndarray(st, 'arange', DType('i', 8), length=None, ref=False, constrain=False)
+	j = z3.Int(fresh_name('j'))
+	st.assume(r.length == cnt)
+	st.assume(z3.ForAll([j], z3.Implies(z3.And(0 <= j, j < r.length), r.at(j) == start + j * step)))
+	ref = Ref('ndarray')
+	st.heap[ref.addr] = r
+	yield st, ref
+
+
+@lib('method:indices')
+def _slice_indices(eng, st, obj, args, kwargs, node, site):
+	"""slice.indices(n): CPython's PySlice_AdjustIndices"""
+	if not isinstance(obj, SSlice):
+		raise Unsupported(f'indices on {obj!r}')
+	n = int_term(args[0])
+	step = z3.IntVal(1) if obj.step is None else int_term(obj.step)
+	neg = step < 0
+
+	def adj(v, dflt_pos, dflt_neg):
+		if v is None:
+			return z3.If(neg, dflt_neg, dflt_pos)
+		t = int_term(v)
+		t = z3.If(t < 0, t + n, t)
+		return z3.If(neg, z3.If(t < -1, -1, z3.If(t > n - 1, n - 1, t)), z3.If(t < 0, 0, z3.If(t > n, n, t)))
+	start = adj(obj.start, z3.IntVal(0), n - 1)
+	stop = adj(obj.stop, n, z3.IntVal(-1))
+	# a negative default for stop must not be re-adjusted: handled above (None case)
+	if obj.stop is not None:
+		t = int_term(obj.stop)
+		t2 = z3.If(t < 0, t + n, t)
+		stop = z3.If(neg, z3.If(t2 < -1, -1, z3.If(t2 > n - 1, n - 1, t2)), z3.If(t2 < 0, 0, z3.If(t2 > n, n, t2)))
+	for s2, zero in eng.branch(st, step == 0):
+		if zero:
+			yield s2, Raised('ValueError')
+		else:
+			yield s2, (SInt(z3.simplify(start)), SInt(z3.simplify(stop)), SInt(step))
